@@ -118,18 +118,16 @@ static void put_qname(Src &s, Builder &b, std::vector<size_t> &name_offs, bool a
     case 5: b.labels_then_ptr(l, (unsigned)(b.size() + wire_len(l) + 1 + s.below(24))); break;   // forward pointer
     case 6: b.ptr(s.below(12)); break;                                           // into the header
     case 7: b.ptr(0x3fff - s.below(256)); break;                                 // out of range
-    case 8: if (k.reserved) { verif_known_skipped("C37/reserved-label-type-accepted"); b.name(l); }
-            else { if (s.flag()) { b.u8(3); b.raw("abc", 3); } b.u8((s.flag() ? 0x40 : 0x80) | s.below(0x40)); b.u8(s.below(256)); b.u8(0); } break;   // 01 / 10 label types
+    case 8: { if (s.flag()) { b.u8(3); b.raw("abc", 3); } b.u8((s.flag() ? 0x40 : 0x80) | s.below(0x40)); b.u8(s.below(256)); b.u8(0); } break;   // 01 / 10 label types
     case 9: for (auto &x : l) { b.u8((unsigned)x.size()); b.raw(x.data(), x.size()); } break;                                     // no terminator
     case 10: { // total length around the 255-octet limit: 253..258 octets, or far beyond
       int wire = 253 + (int)s.below(8); if (wire == 260) wire = 400;
-      if (k.overlong && (wire == 256 || wire == 257)) { verif_known_skipped("C37/overlong-question-name-accepted"); wire = 255; }
       int body = wire - 1; Labels big;
       while (body > 0) { int take = body > 64 ? 63 : body - 1; if (body - 1 - take == 1) take--; if (take <= 0) break; big.push_back(std::string((size_t)take, (char)('a' + big.size() % 26))); body -= take + 1; }
       b.name(big); name_offs.push_back(here); break; }
     case 11: { std::string x = l[0]; x[s.below((uint32_t)x.size())] = s.flag() ? '.' : (s.flag() ? '\0' : (char)(0x80 + s.below(0x80))); Labels w = l; w[0] = x; b.name(w); break; }   // '.', NUL, high bytes inside a label
     case 12: b.u8(0); break;                                                     // the root
-    case 13: b.u8(64 + s.below(64) - (k.reserved ? 64 : 0)); b.raw("abcdefgh", 8); b.u8(0); break;     // runaway length / reserved type
+    case 13: b.u8(64 + s.below(64)); b.raw("abcdefgh", 8); b.u8(0); break;     // runaway length / reserved type
     default: b.name(l); name_offs.push_back(here); break;
   }
 }
@@ -151,7 +149,7 @@ static GenMsg gen_message(Src &s, int idx, const Knowns &k) {
   uint16_t id = (uint16_t)(0x1000 + idx * 0x0111 + s.below(16));
   uint16_t flags = s.flag() ? F_RD : 0; if (rare(s, 1, 6)) flags |= 0x0010;
   if (adv) {
-    if (rare(s, 1, 5)) { if (k.notimpl) verif_known_skipped("C37/nonzero-opcode-not-refused"); else flags |= (uint16_t)((1 + s.below(15)) << 11); }
+    if (rare(s, 1, 5)) { flags |= (uint16_t)((1 + s.below(15)) << 11); }
     if (rare(s, 1, 12)) flags |= F_QR;
     if (rare(s, 1, 6)) flags |= (uint16_t)(s.below(0x800) & ~F_RD);     // AA TC RA Z AD CD rcode bits
   }
@@ -182,8 +180,7 @@ static GenMsg gen_message(Src &s, int idx, const Knowns &k) {
     if (rare(s, 1, 8)) { static const int LIE[] = {1, -1, 65535, 2}; int which = s.below(4); int v = rd16(b.b.data() + 4 + 2 * which); int nv = which == 0 ? v + LIE[s.below(4)] : v + LIE[s.below(4)]; b.set16(4 + 2 * (size_t)which, (unsigned)(nv & 0xffff)); }
     if (rare(s, 1, 8)) { size_t cut = s.below((uint32_t)b.size() + 1); b.b.resize(cut); }
     if (rare(s, 1, 8)) { int flips = 1 + s.below(3); for (int i = 0; i < flips && !b.b.empty(); i++) { size_t at = s.below((uint32_t)b.b.size()); uint8_t bit = (uint8_t)(1u << s.below(8));
-        // keep the opcode clear / reserved label types out while their findings are open
-        uint8_t nv = b.b[at] ^ bit; if (k.notimpl && at == 2 && (nv & 0x78)) continue; b.b[at] = nv; } }
+        b.b[at] ^= bit; } }
     if (rare(s, 1, 10)) { size_t extra = rare(s, 1, 6) ? 1200 + s.below(1500) : 1 + s.below(8); b.raw(g_pad, extra); }
   }
   g.bytes = b.b; return g;
@@ -278,7 +275,7 @@ extern "C" int LLVMFuzzerTestOneInput(const uint8_t *data, size_t size) {
   sim_reset();
   verif_case_begin("C37");
   Src s(data, size);
-  Knowns k; k.notimpl = verif_known("C37/nonzero-opcode-not-refused"); k.reserved = verif_known("C37/reserved-label-type-accepted"); k.overlong = verif_known("C37/overlong-question-name-accepted");
+  Knowns k = {false, false, false};      // no open finding narrows this check (see classify: the fields relax a verdict while one is open)
   bool tcp = s.flag();
   int nmsg = 1 + s.below(4);
   Ctx c;
